@@ -1,7 +1,8 @@
 (* C02 — All validity accounting interfaces agree, at every point in a map's history.
-   Statements only; proofs in AccountProofs.v (on top of the C01/C04 development). *)
+   Statements only; proofs in AccountProofs.v, FracdetProofs.v and CovpixProofs.v (on top of the C01/C04
+   development). *)
 From Coq Require Import QArith.
-From HS Require Import Prelude Cov Map Spec Ops Spec2 Params AtFold MapProofs UpdateProofs HistoryProofs LayoutProofs AccountProofs OpsProofs RebuildProofs FracdetProofs Exec ExecProofs.
+From HS Require Import Prelude Cov Map Spec Ops Spec2 Params AtFold MapProofs UpdateProofs HistoryProofs LayoutProofs AccountProofs OpsProofs RebuildProofs FracdetProofs CovpixProofs Exec ExecProofs.
 Open Scope Z_scope.
 
 Section C02.
@@ -62,6 +63,22 @@ Theorem C02_fracdet_map_is_well_formed :
   forall (m : smap V) r, wf P m -> 0 < r -> nfine m mod r = 0 -> wf count_params (fracdet_map P m r).
 Proof. exact (fracdet_wf P). Qed.
 
+(* valid_pixels_single_covpix(c) never raises on a well-formed map and lists exactly the valid pixels of
+   coverage pixel c (the dense listing, in the same ascending order), covered or not, any block order *)
+Theorem C02_per_coverage_pixel_listing_is_the_valid_set_of_that_pixel :
+  forall (m : smap V) (c : Z), wf P m -> 0 <= c < ncov V m ->
+    valid_pixels_covpix V (p_valid P) (p_dv P) m c =
+    Some (d_valid_pixels_covpix V (p_valid P) (p_dv P) (abs V (p_dv P) m) c).
+Proof. exact (valid_pixels_covpix_spec P). Qed.
+
+(* get_single_covpix_map(c) of a covered coverage pixel is well formed and is the restriction of the map
+   to that coverage pixel (values, blank elsewhere, coverage mask {c}) *)
+Theorem C02_single_coverage_pixel_map_is_the_restriction :
+  forall (m : smap V) (c : Z), wf P m -> 0 <= c < ncov V m -> covered V m c = true ->
+    wf P (single_covpix V m c) /\
+    abs V (p_dv P) (single_covpix V m c) = d_single_covpix V (p_dv P) (abs V (p_dv P) m) c.
+Proof. exact (single_covpix_spec P). Qed.
+
 End C02.
 
 Example C02_hypotheses_satisfiable :
@@ -79,4 +96,6 @@ Print Assumptions C02_cache_never_stale.
 Print Assumptions C02_coverage_map_counts_the_valid_pixels.
 Print Assumptions C02_fracdet_counts_the_valid_children.
 Print Assumptions C02_fracdet_map_is_well_formed.
+Print Assumptions C02_per_coverage_pixel_listing_is_the_valid_set_of_that_pixel.
+Print Assumptions C02_single_coverage_pixel_map_is_the_restriction.
 Print Assumptions C02_hypotheses_satisfiable.
